@@ -55,3 +55,17 @@ plan("C09", [("slash", 12, 90)],
      rule="meter after every BeginBlock vs allowance recomputed from parameters, replenish timing/size, per-packet admit/bounce vs meter sign, meter delta vs "
           "jailed power, O(n^2) window bound over the meter log at the end of each world; consumer automaton Idle/Waiting/Backoff over observed sends and acks, "
           "queued = handled + pending; distinct = automaton transitions, replenish/clamp classes")
+
+plan("C13", [("lifecycle", 10, 70), ("valset", 2, 10), ("slash", 2, 10)],
+     minobs={"single-consumer-blocks": 100, "beginblocks-with-lifecycle-events": 50},
+     rule="full snapshots of the provider store after BeginBlock, before EndBlock and after EndBlock of every block; every changed key is attributed to a "
+          "consumer id by a decoder of the key layout (validated against the repository's prefix table); keys of consumers the block's transactions / due "
+          "lifecycle events do not concern must be untouched, time-queue contents may only move concerned ids; "
+          "distinct = (op kinds, phase of the consumer, whether a prefix-related id such as 1/10 exists)")
+
+plan("C14", [("lifecycle", 6, 40), ("valset", 2, 10)], tests=["TestC14Matrix"],
+     minobs={"matrix-cells": 90, "rejections-checked-for-no-effect": 60, "topn-consumer-observed": 50},
+     rule="directed matrix: message type x sender role (owner, previous owner, stranger, forged signer field, operator, other operator, governance) x phase, "
+          "each as a real signed transaction alone in its block, judged by an authorization table from the statement; rejected => empty transaction-level diff "
+          "of the provider store; accepted validator messages may only touch keys of the signer's validator; ownership never changes in a cell that is not a transfer; "
+          "plus the standing invariant (Top-N => owned by governance and within 50..100) after Begin/EndBlock of every block of every world; distinct = matrix cell")
